@@ -29,7 +29,7 @@ ASSUMPTIONS = [
     "poll deadlines within 0.1 s of a group status arrival or of a connection change are not judged",
 ]
 PROBES = ["c14.fin", "c14.rst", "c14.blackhole", "c14.reboot", "c14.write_error", "c14.state_changed_while_down", "c14.unchanged_refresh",
-          "c14.outage_beyond_heartbeat", "c14.poll_fired", "c14.poll_repeated", "c14.poll_pushed_back"]
+          "c14.outage_beyond_heartbeat", "c14.second_outage", "c14.poll_after_outage", "c14.poll_fired", "c14.poll_repeated", "c14.poll_pushed_back"]
 
 
 def budget(tier: str) -> int:
@@ -80,10 +80,20 @@ def generate(rng, index: int, tier: str) -> dict:
     detect = 331.0 + 300.0 if kind == "blackhole" else 1.0
     down = sum(f["latency"] + (2.0 if f["kind"] != "accept" else 0.0) for f in fates)
     t_end = t_o + detect + down + 5.0
+    if rng.random() < 0.35 and kind != "blackhole":
+        # a second (and third) outage later on: the refresh must happen after EVERY reconnection
+        for _ in range(rng.choice([1, 2])):
+            t2 = t_end + G.dyadic(rng, 1.0, 50.0)
+            tl.append({"at": t2 - G.EPS, "op": "net.fates", "fates": [{"kind": "accept", "latency": rng.choice([0.0, 0.5])}]})
+            tl.append({"at": t2, "op": rng.choice(["net.fin", "net.rst"])})
+            t_end = t2 + 6.0
+        info_second = True
+    else:
+        info_second = False
     tl.append({"at": t_end - 1.0, "op": "user.snapshot", "label": "final"})
     tl.sort(key=lambda s: s["at"])
     return {"gen": gen, "mode": "api", "installation": inst, "knobs": knobs, "timeline": tl, "end": t_end, "class": "reconnect",
-            "info": {"kind": kind, "t_o": t_o, "changed": changed, "down": down}}
+            "info": {"kind": kind, "t_o": t_o, "changed": changed, "down": down, "second": info_second}}
 
 
 def gen_poll(rng) -> dict:
@@ -102,8 +112,14 @@ def gen_poll(rng) -> dict:
         t += gap
         if t < 1450.0:
             tl.append({"at": t, "op": "console.publish", "what": "zone", "ids": [rng.choice(zones)] if rng.random() < 0.5 else None})
+    info = {"mode": mode}
+    if rng.random() < 0.3:
+        t_o = G.dyadic(rng, 20.0, 700.0)
+        tl.append({"at": t_o - G.EPS, "op": "net.fates", "fates": [{"kind": "accept", "latency": rng.choice([0.0, 1.0])}]})
+        tl.append({"at": t_o, "op": rng.choice(["net.fin", "net.rst"])})
+        info["outage_at"] = t_o
     tl.sort(key=lambda s: s["at"])
-    return {"gen": 4, "mode": "api", "installation": inst, "knobs": knobs, "timeline": tl, "end": 1500.0, "class": "poll", "info": {"mode": mode}}
+    return {"gen": 4, "mode": "api", "installation": inst, "knobs": knobs, "timeline": tl, "end": 1500.0, "class": "poll", "info": info}
 
 
 def execute(sc: dict) -> dict:
@@ -147,6 +163,8 @@ def execute(sc: dict) -> dict:
         if kinds.count("ac_status_request") > 1 or kinds.count(zreq) > (2 if gen == 4 else 1):
             V.append(viol("C14.refresh_repeated", {"link": l.id, "first_frames": kinds}))
             break
+    if info.get("second") and len(links) >= 3:
+        probes["c14.second_outage"] = 1
     if links[1].t_accept - info.get("t_o", 0) > 330.0:
         probes["c14.outage_beyond_heartbeat"] = 1
     # getters converge to the console's state
@@ -196,7 +214,11 @@ def execute_poll(sc: dict) -> dict:
     lat = sc["knobs"].get("latency", 0.0)
     t_i = init["t_ret"]
     arrivals = sorted(x["t"] + lat for x in w.console.tx if x["kind"] == "group_status" and x["t"] + lat > t_i)
-    reqs = sorted(e["t"] - lat for e in w.console.rx if e["reading"]["kind"] == "group_status_request" and e["t"] - lat > t_i + 1e-9)
+    ups = [l.t_accept for l in w.net.links if l.t_accept is not None][1:]
+    reqs = sorted(e["t"] - lat for e in w.console.rx if e["reading"]["kind"] == "group_status_request" and e["t"] - lat > t_i + 1e-9
+                  and not any(abs((e["t"] - lat) - u) < 0.1 for u in ups))
+    if ups:
+        probes["c14.poll_after_outage"] = 1
     end = sc["end"] - 1.0
     D = t_i + 300.0
     expected = []
@@ -217,24 +239,32 @@ def execute_poll(sc: dict) -> dict:
             skip_near.append(D)
         expected.append(D)
         D += 300.0
+    downs = [e[1] for e in w.trace.events if e[2] in ("rx.fin", "rx.rst", "conn.lost")]
+    for d in expected:
+        if any(abs(d - x) < 1.5 for x in ups + downs):
+            skip_near.append(d)
     expected = [d for d in expected if d < end - 0.1]
     reqs = [r for r in reqs if r < end - 0.1]
-    amb = lambda t: any(abs(t - s) < 0.2 or abs(t - (s + 300.0)) < 0.2 for s in skip_near)  # noqa: E731
+    # judge the prefix of the run up to the first ambiguous deadline (what follows depends on which side it fell)
+    horizon = min(skip_near) - 0.5 if skip_near else end
     if expected:
         probes["c14.poll_fired"] = 1
     if len(expected) > 1:
         probes["c14.poll_repeated"] = 1
-    if not skip_near:
-        for d in expected:
-            if not any(abs(r - d) <= 0.05 for r in reqs):
-                V.append(viol("C14.poll_missing", {"expected_at": d, "requests": reqs[:8], "arrivals": arrivals[:8], "mode": sc["info"]["mode"]}, first=(d == expected[0])))
+    for d in expected:
+        if d >= horizon:
+            break
+        if not any(abs(r - d) <= 0.05 for r in reqs):
+            V.append(viol("C14.poll_missing", {"expected_at": d, "requests": reqs[:8], "arrivals": arrivals[:8], "mode": sc["info"]["mode"],
+                                               "outage_at": sc["info"].get("outage_at")}, first=(d == expected[0]), after_outage=bool(ups) and d > ups[0]))
+            break
+    if not V:
+        for r in reqs:
+            if r >= horizon:
                 break
-        if not V:
-            for r in reqs:
-                if not any(abs(r - d) <= 0.05 for d in expected):
-                    V.append(viol("C14.poll_spurious", {"request_at": r, "expected": expected[:8], "arrivals": arrivals[:8]}))
-                    break
-    del amb
+            if not any(abs(r - d) <= 0.05 for d in expected):
+                V.append(viol("C14.poll_spurious", {"request_at": r, "expected": expected[:8], "arrivals": arrivals[:8]}))
+                break
     return common.result(w, V, nontrivial=True, probes=probes)
 
 
